@@ -223,6 +223,31 @@ def run(chk):
         chk.coverage['hello_single_codes'] = len(single)
     else:
         chk.violation('model runner does not build: %s' % br.failed_file, {'error': br.error}, None, False)
+    # SSH algorithm names: name-lists mixing names of the table with unknown names at every position; each name comes back as the
+    # member carrying it or, verbatim, as itself, in order, and the list re-encodes to the same bytes
+    from cryptoparser.ssh import subprotocol as sp
+    nn = 0
+    for vcls in (sp.SshKexAlgorithmVector, sp.SshHostKeyAlgorithmVector, sp.SshEncryptionAlgorithmVector, sp.SshMacAlgorithmVector, sp.SshCompressionAlgorithmVector):
+        known = [m.value.code for m in vcls.get_param().item_class]
+        pool = (known or ['none'])[:40]
+        for _ in range(12 if chk.tier == 'quick' else 300):
+            names = []
+            for _k in range(chk.rng.randint(1, 6)):
+                names.append(chk.rng.choice(pool) if chk.rng.random() < 0.55 else 'x-%d@example.org' % chk.rng.randrange(1000))
+            body = ','.join(names).encode('ascii')
+            wire = len(body).to_bytes(4, 'big') + body
+            nn += 1
+            try:
+                v = vcls.parse_exact_size(wire)
+                got = [x if isinstance(x, str) else x.value.code for x in v]
+                back = bytes(v.compose())
+            except Exception as e:  # pylint: disable=broad-except
+                got, back = type(e).__name__, None
+            if (got != names or back != wire) and nv < 14:
+                nv += 1
+                chk.violation('%s: the name-list %s decodes to %s and re-encodes to %r' % (vcls.__name__, ','.join(names), got if isinstance(got, str) else ','.join(got), back),
+                              {'class': vcls.__name__, 'names': names, 'decoded': got, 'kind': 'ssh-names'}, None, True)
+    chk.coverage['ssh_name_lists'] = nn
     chk.coverage['evaluations'] = len(lines)
     chk.coverage['distinct_nontrivial'] = len(nontrivial)
     chk.coverage['traces_validated_against_impl'] = len(lines)
